@@ -34,6 +34,9 @@ use unsigned_varint::{codec, encode};
 // send a 4 TB-long packet full of zeroes that we kill our process with an OOM error.
 pub(crate) const MAX_FRAME_SIZE: usize = 1024 * 1024;
 
+#[cfg(libp2p_verif)]
+pub mod verif;
+
 /// A unique identifier used by the local node for a substream.
 ///
 /// `LocalStreamId`s are sent with frames to the remote, where
